@@ -71,6 +71,8 @@ def run_plan(plan_data, keep_events=True):
         "world": sim.world.dump(),
         "assigned": sim.assigned,
         "consulted": dict(plan.consulted),
+        "graph_violations": sim.graph_violations,
+        "graph_probes": sim.graph_probes,
         "scenario": {k: v for k, v in scenario.items() if not k.startswith("_")},
     }
     return history
